@@ -238,8 +238,8 @@ def handle (fn : String) (a : Json) : Option (Except String Json) :=
       let orc := orcOf failing
       let maxStates := (a.getObjValAs? Nat "maxStates").toOption.getD 200000
       let maxPauses := (a.getObjValAs? Nat "maxPauses").toOption.getD 1
-      let stale := (a.getObjValAs? Bool "stale").toOption.getD false
-      let clean := (a.getObjValAs? Bool "clean").toOption.getD true
+      let stale := (a.getObjValAs? Bool "stale").toOption.getD true
+      let clean := (a.getObjValAs? Bool "clean").toOption.getD false
       let once := (a.getObjValAs? Bool "once").toOption.getD false
       let invs := checks sp orc ++ (if once then [("once", onceB)] else [])
       let (nodes, r) := explore sp orc stale clean maxPauses maxStates invs
@@ -261,8 +261,8 @@ def handle (fn : String) (a : Json) : Option (Except String Json) :=
       let nWalks := (a.getObjValAs? Nat "walks").toOption.getD 200
       let maxLen := (a.getObjValAs? Nat "maxLen").toOption.getD 300
       let seed := (a.getObjValAs? Nat "seed").toOption.getD 0
-      let stale := (a.getObjValAs? Bool "stale").toOption.getD false
-      let clean := (a.getObjValAs? Bool "clean").toOption.getD true
+      let stale := (a.getObjValAs? Bool "stale").toOption.getD true
+      let clean := (a.getObjValAs? Bool "clean").toOption.getD false
       let once := (a.getObjValAs? Bool "once").toOption.getD false
       let invs := checks sp orc ++ (if once then [("once", onceB)] else [])
       let (visited, quiescent, viol) := walks sp orc stale clean maxPauses nWalks maxLen seed invs
